@@ -37,6 +37,9 @@ type c25Case struct {
 	Order []int      `json:"order"`     // creation order
 	Sched []c25Slice `json:"schedule"`
 	Lazy  []bool     `json:"lazy,omitempty"` // instance i is created only just before its first slice, while the others are already running
+	// Pristine: the solo references are computed in a fresh child process per instance (one case in three);
+	// otherwise in this process, before the instances that run together are created.
+	Pristine bool `json:"pristine,omitempty"`
 }
 
 type c25Inst struct {
@@ -148,7 +151,7 @@ func c25Run(c c25Case) (info c25Info, sig string, err error) {
 		if len(sp.Slices) == 0 {
 			continue
 		}
-		if os.Getenv("VERIF_C25_INPROC") != "" {
+		if os.Getenv("VERIF_C25_INPROC") != "" || !c.Pristine {
 			pristine[i] = c25SoloDigests(sp)
 			continue
 		}
@@ -412,14 +415,14 @@ func c25GenOrder(rt *rapid.T, n int) []int {
 
 func TestC25(t *testing.T) {
 	c := vf.New(t, "C25", "rapid cases of 2-3 instances (generated register-hammering programs on 7 cartridge types, or ROMs of the test corpus) created in a drawn order; "+
-		"(interleave) stepped on machine.M in a drawn schedule of 2-40 slices of 1-3000 machine cycles, each instance created either up front (in the drawn order) or only just before its first slice while the others are already running, every instance compared after each of its slices with the same instance run alone in a process of its own, and the idle instances checked for not having moved; "+
+		"(interleave) stepped on machine.M in a drawn schedule of 2-40 slices of 1-3000 machine cycles, each instance created either up front (in the drawn order) or only just before its first slice while the others are already running, every instance compared after each of its slices with the same instance run alone (in one case in three: alone in a fresh process of its own, so that state cached per process cannot contaminate the reference), and the idle instances checked for not having moved; "+
 		"(frames) real gameboy.New instances stepped frame by frame through runFrame in a drawn turn order, and (concurrent) each in its own goroutine, per-frame digests, samples and serial output compared with the solo run; thorough also runs the concurrent mode under the race detector. "+
 		"Non-trivial: at least two instances were accepted and the schedule switches instance at least twice. Distinct = hash of the case.")
 	defer c.Flush()
 	c.RunReplays()
 	roms := c24Corpus()
 
-	c.Rapid("interleave", 1200, 40000, func(rt *rapid.T) {
+	c.Rapid("interleave", 2400, 60000, func(rt *rapid.T) {
 		n := rapid.IntRange(2, 3).Draw(rt, "n")
 		var cas c25Case
 		for i := 0; i < n; i++ {
@@ -434,8 +437,12 @@ func TestC25(t *testing.T) {
 			return c25Slice{Inst: rapid.IntRange(0, n-1).Draw(rt, "inst"), Cycles: cy}
 		}), 2, 40).Draw(rt, "schedule")
 		cas.Lazy = rapid.SliceOfN(rapid.Bool(), n, n).Draw(rt, "lazy")
+		cas.Pristine = rapid.IntRange(0, 2).Draw(rt, "pristine") == 0
 		info, sig, err := c25Run(cas)
 		class := fmt.Sprintf("interleave-%d-instances", n)
+		if cas.Pristine {
+			c.Class("interleave-solo-reference-in-pristine-process", 1)
+		}
 		for _, l := range cas.Lazy {
 			if l {
 				c.Class("interleave-instance-created-while-others-run", 1)
